@@ -164,6 +164,19 @@ G = {g}
 def mk(k):
     return lambda x: x * k + G + {c}
 ''',
+    # sibling closures: created with EQUAL captured values, rebound to different ones after conversion
+    'siblings': '''
+G = {g}
+def make(k):
+    def scale(x):
+        if x > 0:
+            return x * k + G + probe()
+        return k + {c}
+    def setk(v):
+        nonlocal k
+        k = v
+    return scale, setk
+''',
     # not convertible (for/else): transform_ast raises, nothing is cached, every request retries
     'broken': '''
 G = {g}
@@ -226,10 +239,11 @@ def probe_fn():
 
 class Fn(object):
     """One function object of the pool plus what the oracle needs."""
-    __slots__ = ('fn', 'args', 'bound', 'fake', 'label', 'refs')
+    __slots__ = ('fn', 'args', 'bound', 'fake', 'label', 'refs', 'setter')
 
-    def __init__(self, fn, args, label, bound=None, fake=None):
+    def __init__(self, fn, args, label, bound=None, fake=None, setter=None):
         self.fn, self.args, self.label, self.bound, self.fake = fn, args, label, bound, fake
+        self.setter = setter
         self.refs = {}           # opt tuple -> reference-converted function
 
 
@@ -307,6 +321,8 @@ class Group(object):
                     Fn(ns['K'].m, [(k1, 3), (k2, 30)], 'plain function K.m')]
         elif kind == 'lambda':
             out += [Fn(ns['mk'](2), [(3,)], 'lambda k=2'), Fn(ns['mk'](5), [(3,)], 'lambda k=5')]
+        elif kind == 'siblings':
+            self.maker = ns['make']
         elif kind == 'broken':
             out += [Fn(ns['mkb'](1), [(3,), (1,)], 'unconvertible k=1'), Fn(ns['mkb'](4), [(3,), (9,)], 'unconvertible k=4')]
         self.fns = out
@@ -839,6 +855,7 @@ class Installed(object):
                 res = orig_tf(fn, user_context)
                 req['outcome'] = 'ok'
                 req['ret_is_inst'] = (id(res[0]) == req.get('inst_id'))
+                req['bind_err'] = binding_error(res[0], fn)
                 return res
             except BaseException as e:
                 req['outcome'] = 'err:' + type(e).__name__
@@ -889,6 +906,31 @@ class Installed(object):
         self.api._TRANSPILER = self.old_tr
         with self.rec.mutex:
             self.rec.emit(self.rec.scan(full=True))
+
+
+def binding_error(conv, fn):
+    """The served function must be bound to the REQUESTING function's own environment, by identity:
+    same globals dict, same cell object for every free variable it shares (by name) with the original,
+    same defaults / kwdefaults objects.  Returns a description of the first deviation or None."""
+    try:
+        if conv.__globals__ is not fn.__globals__:
+            return 'globals of the served function are not the requesting function\'s globals dict'
+        ofree = fn.__code__.co_freevars
+        oclo = fn.__closure__ or ()
+        cfree = conv.__code__.co_freevars
+        cclo = conv.__closure__ or ()
+        for i, name in enumerate(cfree):
+            if name in ofree:
+                if cclo[i] is not oclo[ofree.index(name)]:
+                    return 'free variable %r of the served function is bound to another cell than the requesting function\'s' % name
+        if (fn.__defaults__ or None) is not None and conv.__defaults__ is not fn.__defaults__:
+            return 'defaults of the served function are not the requesting function\'s defaults object'
+        kd = getattr(fn, '__kwdefaults__', None)
+        if kd and conv.__kwdefaults__ is not kd:
+            return 'kwdefaults of the served function are not the requesting function\'s kwdefaults object'
+    except Exception as e:      # noqa
+        return 'binding check failed: %s' % type(e).__name__
+    return None
 
 
 def _env_key(g, closure, defaults, kwdefaults):
@@ -1008,6 +1050,45 @@ def do_request(world, entry, opt, route, verdicts, where):
                                      args=[repr(x)[:60] for x in a], got=repr(got), expected=repr(exp)))
     except Exception as e:       # noqa
         verdicts.append(dict(info, what='request raised %s: %s' % (type(e).__name__, str(e)[:200])))
+
+
+def do_pair(world, group, opt, route, verdicts, where):
+    """Two sibling closures from one factory, created with EQUAL captured values, converted back to
+    back; then the captured variable of one (sometimes both) is rebound through its setter closure; only
+    then are both compared with their cache-less reference conversions."""
+    malt, api, converter, _, _, _ = _malt()
+    r, u, i, fs = opt
+    feats = tuple(getattr(converter.Feature, f) for f in fs) or None
+    k0 = 3 + world.pick(5)
+    (sa, seta), (sb, setb) = group.maker(k0), group.maker(k0)
+    ea = Fn(sa, [(3,), (0,)], 'sibling closure a (k=%d at conversion)' % k0, setter=seta)
+    eb = Fn(sb, [(3,), (0,)], 'sibling closure b (k=%d at conversion)' % k0, setter=setb)
+    info = dict(where, opt=list(opt[:3]) + [list(opt[3])], route=route)
+    try:
+        conv = []
+        for e in (ea, eb):
+            if route == 'to_graph':
+                conv.append(malt.to_graph(e.fn, recursive=r, experimental_optional_features=feats))
+            else:
+                conv.append(api._convert_actual(e.fn, converter.ProgramContext(options=make_opts(opt))))
+        refs = [reference(ea, opt), reference(eb, opt)]
+        # diverge AFTER both conversions
+        setb(k0 + 7)
+        if world.pick(3) == 0:
+            seta(k0 + 20)
+        for e, g, ref in zip((ea, eb), conv, refs):
+            for a in e.args:
+                got = behave(g, a, None)
+                exp = behave(ref, a, None)
+                if got != exp:
+                    verdicts.append(dict(info, label=e.label, args=[repr(x) for x in a], got=repr(got), expected=repr(exp),
+                                         what='behaviour differs from cache-less reference conversion after the '
+                                              'captured variable was rebound'))
+            be = binding_error(g, e.fn)
+            if be:
+                verdicts.append(dict(info, label=e.label, what=be))
+    except Exception as e:       # noqa
+        verdicts.append(dict(info, label='sibling closures', what='request raised %s: %s' % (type(e).__name__, str(e)[:200])))
 
 
 class World(object):
